@@ -4,6 +4,7 @@
   kernel over the finite set `reach` (RoProofs.Kernel.Reach).
 -/
 import RoProofs.Kernel.Reach
+import RoModel.Kernel.Preds
 namespace Ro.Kernel
 
 def orElse : Option Bool → Option Bool → Option Bool
@@ -102,6 +103,161 @@ def lfInside (b : Bool) (c : Ctl) : Bool :=
   | _ => c'.inside == c.inside
 
 theorem lfInside_all (b : Bool) : reach.all (lfInside b) = true := by cases b <;> decide +kernel
+
+/-! ### return, closing calls, Wait -/
+
+def Head.isFinish : Head → Bool
+  | .finish => true
+  | _ => false
+
+/-- the last frame's exhaustion leads to the idle state -/
+def lfFinish (b : Bool) (c : Ctl) : Bool := !c.head.isFinish || (nextCtl P c b).beq Ctl.idle
+
+theorem lfFinish_all (b : Bool) : reach.all (lfFinish b) = true := by cases b <;> decide +kernel
+
+def Stmt.isStatusCas : Stmt → Bool
+  | .ifCas .status _ _ _ _ => true
+  | _ => false
+
+/-- the CAS on `status` of this call is still ahead (top level of some frame) -/
+def Ctl.beforeCas (c : Ctl) : Bool := c.stack.any fun fr => fr.body.any Stmt.isStatusCas
+
+def lfBeforeCas (b : Bool) (c : Ctl) : Bool :=
+  (!(c.beforeCas && !(nextCtl P c b).beforeCas) || (match c.head with | .stmt s => s.isStatusCas | _ => false))
+  && (!c.head.isFinish || !c.beforeCas)
+
+theorem lfBeforeCas_all (b : Bool) : reach.all (lfBeforeCas b) = true := by cases b <;> decide +kernel
+
+theorem entry_beforeCas (c : ApiCall) (h : c.closes = true) : (Ctl.entry P c).beforeCas = true := by
+  cases c <;> simp [ApiCall.closes] at h
+  · show (Ctl.entry P (.error 0)).beforeCas = true
+    decide
+  · decide
+  · decide
+
+def Stmt.isRecv : Stmt → Bool
+  | .recv => true
+  | _ => false
+
+/-- Wait has not received yet and is not unwinding -/
+def Ctl.waitOpen (c : Ctl) : Bool := !c.panicking && c.stack.any fun fr => fr.body.any Stmt.isRecv
+
+def lfWait (b : Bool) (c : Ctl) : Bool :=
+  (!(c.waitOpen && !(nextCtl P c b).waitOpen) ||
+    (match c.head with | .stmt .recv => true | .stmt .runNow => b | _ => false))
+  && (!c.head.isFinish || !c.waitOpen)
+
+theorem lfWait_all (b : Bool) : (reachM .snWait).all (lfWait b) = true := by cases b <;> decide +kernel
+
+/-- at these points `done` is known to be true: after `setDone`, and in the then-branch of `if s.done` in Add -/
+def Ctl.doneKnown (c : Ctl) : Bool :=
+  match c.head with
+  | .stmt (.ifFld .finalizers _ _ _) | .stmt .swapFinalizers | .stmt .runNow => true
+  | _ => false
+
+def lfDoneKnown (b : Bool) (c : Ctl) : Bool :=
+  !(nextCtl P c b).doneKnown || c.doneKnown ||
+    (match c.head with | .stmt .setDone => true | .stmt (.ifFld .done 1 _ _) => b | _ => false)
+
+theorem lfDoneKnown_all (b : Bool) : reach.all (lfDoneKnown b) = true := by cases b <;> decide +kernel
+
+/-! ### teardown -/
+
+mutual
+def mentionsAddS : Stmt → Bool
+  | .appendFinalizer | .runNow | .callSelf .snAdd => true
+  | .tryLock _ a b | .ifLoadEq _ _ a b | .ifFld _ _ a b | .ifCas _ _ _ a b | .ifNil _ a b => mentionsAddL a || mentionsAddL b
+  | _ => false
+def mentionsAddL : List Stmt → Bool
+  | [] => false
+  | s :: r => mentionsAddS s || mentionsAddL r
+end
+
+/-- the finalizer handed to this Add / Wait call has not been stored or run yet -/
+def Ctl.unconsumed (c : Ctl) : Bool := !c.panicking && c.stack.any fun fr => mentionsAddL fr.body
+
+def lfPend (b : Bool) (c : Ctl) : Bool :=
+  (match c.head with
+   | .stmt .appendFinalizer | .stmt .runNow => c.unconsumed && !(nextCtl P c b).unconsumed
+   | _ => !(nextCtl P c b).unconsumed || c.unconsumed)
+  && (!c.head.isFinish || !c.unconsumed)
+
+theorem lfPend_all (b : Bool) : reach.all (lfPend b) = true := by cases b <;> decide +kernel
+
+/-- only Add and Wait calls store or run a teardown of their own -/
+def lfNoAdd (c : Ctl) : Bool :=
+  match c.head with
+  | .stmt .appendFinalizer | .stmt .runNow | .stmt .recv => false
+  | _ => true
+
+theorem lfNoAdd_all : [Meth.subNext, .subError, .subComplete, .subUnsubscribe, .subIsClosed].all
+    (fun m => (reachM m).all lfNoAdd) = true := by decide +kernel
+
+def Stmt.isRunTaken : Stmt → Bool
+  | .runTaken => true
+  | _ => false
+def Stmt.isSwap : Stmt → Bool
+  | .swapFinalizers => true
+  | _ => false
+
+/-- between the swap and the end of the finalizer loop -/
+def Ctl.afterSwap (c : Ctl) : Bool :=
+  !c.panicking && (c.stack.any fun fr => fr.body.any Stmt.isRunTaken) && !(c.stack.any fun fr => fr.body.any Stmt.isSwap)
+
+def lfAfterSwap (b : Bool) (c : Ctl) : Bool :=
+  -- the swap enters the region; only the exhausted loop leaves it; inside, nothing blocks
+  (match c.head with
+   | .stmt .swapFinalizers => (nextCtl P c b).afterSwap && !c.afterSwap
+   | .stmt .runTaken => c.afterSwap && (b || !(nextCtl P c b).afterSwap) && (!b || (nextCtl P c b).afterSwap)
+   | .stmt (.unlock _) => (nextCtl P c b).afterSwap == c.afterSwap
+   | .stmt .raiseJoined => !c.afterSwap
+   | _ => !c.afterSwap && !(nextCtl P c b).afterSwap)
+
+theorem lfAfterSwap_all (b : Bool) : reach.all (lfAfterSwap b) = true := by cases b <;> decide +kernel
+
+/-- `setDone` has been executed, the swap (or the `len == 0` exit) not yet -/
+def Ctl.owning (c : Ctl) : Bool :=
+  match c.head with
+  | .stmt (.ifFld .finalizers 0 _ _) | .stmt .swapFinalizers => true
+  | _ => false
+
+def lfOwning (b : Bool) (c : Ctl) : Bool :=
+  (match c.head with
+   | .stmt .setDone => (nextCtl P c b).owning
+   | .stmt (.ifFld .finalizers 0 _ _) => b || (nextCtl P c b).owning
+   | _ => true)
+  && (match c.head with | .stmt (.ifFld .finalizers k _ _) => k == 0 | _ => true)
+
+theorem lfOwning_all (b : Bool) : reach.all (lfOwning b) = true := by cases b <;> decide +kernel
+
+/-- the statements that touch the subscription's state are executed holding `subMu` -/
+def lfSubHeld (c : Ctl) : Bool :=
+  match c.head with
+  | .stmt .setDone | .stmt .swapFinalizers | .stmt .appendFinalizer | .stmt .runNow
+  | .stmt (.ifFld .done _ _ _) | .stmt (.ifFld .finalizers _ _ _) | .stmt (.retFld _) => c.holds .subMu
+  | _ => true
+
+theorem lfSubHeld_all : reach.all lfSubHeld = true := by decide +kernel
+
+/-- `appendFinalizer` is reached only from the else-branch of `if s.done` -/
+def lfAppend (b : Bool) (c : Ctl) : Bool :=
+  match (nextCtl P c b).head, c.head with
+  | .stmt .appendFinalizer, .stmt (.ifFld .done 1 _ _) => !b
+  | .stmt .appendFinalizer, .stmt .appendFinalizer => true
+  | .stmt .appendFinalizer, _ => false
+  | _, _ => true
+
+theorem lfAppend_all (b : Bool) : reach.all (lfAppend b) = true := by cases b <;> decide +kernel
+
+/-- IsClosed: one atomic load, then return; never unwinding -/
+def lfIsClosed (b : Bool) (c : Ctl) : Bool :=
+  !c.panicking &&
+  (match c.head with
+   | .stmt (.retLoad .status .ne 0) => (nextCtl P c b).head.isFinish
+   | .finish | .idle => true
+   | _ => false)
+
+theorem lfIsClosed_all (b : Bool) : (reachM .subIsClosed).all (lfIsClosed b) = true := by cases b <;> decide +kernel
 
 theorem entry_armed (c : ApiCall) : (Ctl.entry P c).armed = none := by
   have := entry_fact (Q := fun c => c.armed.isNone && !c.inside) (by decide) c
